@@ -399,7 +399,19 @@ func c08SizeGuardOpt(c *Ctx, rule string, coAssign bool) {
 				for i, l := range y.Lhs {
 					if sel, ok := ast.Unparen(l).(*ast.SelectorExpr); ok {
 						if v := fieldVar(f, sel); v != nil && v.Name() == "valueBytes" && i < len(y.Rhs) {
+							// the parameter itself, or a copy of it made on the spot (append(dst[:0], value...),
+							// append([]byte(nil), value...), bytes.Clone(value))
+							stored := false
 							if id, ok := ast.Unparen(y.Rhs[i]).(*ast.Ident); ok && f.ObjOf(id) == param {
+								stored = true
+							} else if call, ok := ast.Unparen(y.Rhs[i]).(*ast.CallExpr); ok {
+								for _, a := range call.Args {
+									if id, ok := ast.Unparen(a).(*ast.Ident); ok && f.ObjOf(id) == param {
+										stored = true
+									}
+								}
+							}
+							if stored {
 								// find the sibling valueSize assignment in the same block on the same base
 								var size ast.Expr
 								if blk := innermostBlock(f.Decl.Body, y); blk != nil {
@@ -1052,6 +1064,50 @@ func c14StatementLoops(c *Ctx, rule string) {
 			}
 			if depth > 1 {
 				key = f.Name + "|loop^" + itoa(depth) + "|" + calleeKey(cs.Callee)
+			}
+			// nothing else in the loop can refuse the statement: an error exit of the loop body that is not the
+			// mutator's own (a WHERE clause evaluated row by row, a value converted inside the loop) leaves the
+			// rows before it applied
+			{
+				var lb *ast.BlockStmt
+				switch l := loop.(type) {
+				case *ast.RangeStmt:
+					lb = l.Body
+				case *ast.ForStmt:
+					lb = l.Body
+				}
+				sig, _ := f.TypeOf(cs.Call.Fun).(*types.Signature)
+				var mutErr types.Object
+				if sig != nil && sig.Results().Len() > 0 {
+					mutErr = f.resultVar(f.Decl.Body, cs.Call, sig.Results().Len()-1)
+				}
+				otherExit := token.NoPos
+				what := ""
+				if lb != nil {
+					inspectBody(lb, func(x ast.Node) bool {
+						r, ok := x.(*ast.ReturnStmt)
+						if !ok || len(r.Results) == 0 {
+							return true
+						}
+						last := ast.Unparen(r.Results[len(r.Results)-1])
+						if isNilIdent(f, last) || !isErrorType(f.TypeOf(last)) {
+							return true
+						}
+						if id, ok := last.(*ast.Ident); ok && mutErr != nil && f.ObjOf(id) == mutErr && r.Pos() > cs.Call.Pos() {
+							return true // the mutator's own error
+						}
+						if !otherExit.IsValid() {
+							otherExit, what = r.Pos(), f.Src(last)
+						}
+						return true
+					})
+				}
+				k2 := key + "|no-other-refusal"
+				if otherExit.IsValid() {
+					c.FailConfined(rule, k2, otherExit, "the loop that applies %s row by row can also leave with the error %s, which is not the mutator's own: a row for which this happens is reached after rows 1..k-1 have been applied, so the failing statement changes the table (everything that can refuse the statement belongs before the first mutation)", calleeKey(cs.Callee), what)
+				} else {
+					c.OK(rule, k2, cs.Call.Pos(), 1, "the mutator's error is the loop's only error exit")
+				}
 			}
 			sent := coneSentinels(w, cs.Targets...)
 			if len(sent) == 0 {
